@@ -2,6 +2,7 @@ package c09
 
 import (
 	"context"
+	"encoding/base64"
 	"encoding/hex"
 	"encoding/xml"
 	"fmt"
@@ -793,6 +794,14 @@ func scenarioList() []scenario {
 		sc("history-closed-then-fin", "call:hist.1", await("hq1"), feed(mamResult("hq1")), "wait:hist.1", replyto("hq1", "result", finPayload), "probe", feed(mamResult("hq1"))),
 		sc("history-closed-then-fin-error", "call:hist.1", await("hq1"), feed(mamResult("hq1")), "wait:hist.1", replyto("hq1", "error", errPayload), "probe"),
 	)
+	// --- data packets of every size on an open stream (block size 65535) ------------------------
+	for _, n := range []int{0, 1, 4097, 49149, 49152, 65535, 65536, 65537, 98304, 196608, 262143, 262144, 262145, 1 << 20} {
+		// n = decoded size; the packet carries base64 of n zero bytes
+		enc := base64.StdEncoding.EncodeToString(make([]byte, n))
+		open := strings.Replace(ibbOpen("i1", "s1"), `block-size="4096"`, `block-size="65535"`, 1)
+		data := strings.Replace(ibbData("i2", "s1", 0), "aGVsbG8=", enc, 1)
+		l = append(l, sc(fmt.Sprintf("ibb-in-data-size-%d", n), "call:ibbaccept", feed(open), "wait:ibbaccept", feed(data), "probe", "call:ibbread.in", feed(ibbData("i3", "s1", 1)), feed(ibbClose("i4", "s1"))))
+	}
 	// --- muc ---------------------------------------------------------------------------------
 	l = append(l,
 		sc("muc-unmanaged-presences", feed(mucPresence("other@conf.example/x", "", true)), feed(mucPresence("other@conf.example/x", "unavailable", true)), feed(mucPresence("room@conf.example/nick", "", true))),
